@@ -176,6 +176,9 @@ type Sim struct {
 	TimeAmbiguous bool
 	Certs         []*CertEnt
 	closedOK      bool
+	// replies handed out by earlier Forward calls (the slice as returned, and a copy taken at once): what a caller
+	// received must not change under later operations
+	fwdGot, fwdCopy [][]byte
 }
 
 // Cert returns the history's certificate with this blob id.
@@ -418,6 +421,16 @@ func (s *Sim) Do(op *Op) *StepObs {
 		human = "error: " + err.Error()
 	}
 	t0 := time.Now().Unix()
+	defer func() {
+		for i := range s.fwdGot {
+			if !bytes.Equal(s.fwdGot[i], s.fwdCopy[i]) {
+				s.Bad = append(s.Bad, fmt.Sprintf("the %d-byte reply handed out by an earlier Forward call changed during a later %s", len(s.fwdCopy[i]), op.Kind))
+				s.fwdGot[i] = append([]byte(nil), s.fwdCopy[i]...)
+			} else {
+				s.Checks++
+			}
+		}
+	}()
 	panicked, msg := core.Guard(func() {
 		switch op.Kind {
 		case OpList:
@@ -522,6 +535,7 @@ func (s *Sim) Do(op *Op) *StepObs {
 				fail(err)
 				return
 			}
+			s.fwdGot, s.fwdCopy = append(s.fwdGot, resp), append(s.fwdCopy, append([]byte(nil), resp...))
 			inj := s.Proxy.Injected()
 			switch {
 			case s.Proxy.Fired() > 0 && s.faultedAt(base) && bytes.Equal(resp, inj):
